@@ -3,6 +3,8 @@
 spec/LLData/LLData.tla        property-level model: central (environment) + lossy channel + peripheral buffer + upper
                               layer; the peripheral's obligations per received PDU (Answer) and the end-to-end
                               invariants (DeliveredPrefix, AckOnlyAfterReceipt, NoAckWithoutStore, counters in step ...)
+spec/LLData/LLDataImpl.tla    implementation-shaped model (members and decision structure of the real class); the same
+                              invariants are checked on it; with acknowledge(pdu) as it is TLC finds the C17 history
 spec/LLData/LLDataGen.tla     behaviour generator (environment scripts): all behaviours to depth D, one behaviour per
                               model state / per (operation, state), random deep ones
 spec/LLData/LLDataTrace.tla   trace validation of the recorded steps of the real class
@@ -10,7 +12,8 @@ harness/lldata                mock_radio : ll_data_pdu_buffer<Tx, Rx, mock_radio
 
 The three properties share the model and the harness; they differ in the fault alphabet of the generated behaviours:
   C15 "plain"  lost / CRC error / no buffer, no MIC failures; additionally the room rule (an empty buffer accepts a PDU)
-  C16 "enc"    encrypted link: a retransmission of a data PDU that was already accepted fails its MIC
+  C16 "enc"    encrypted link: the MIC of a data PDU fails iff the buffer's receive packet counter differs from the
+               PDU's packet counter (a retransmission of a PDU that was already accepted and counted)
   C17 "any"    a MIC failure can hit any non-empty PDU
 """
 import json
@@ -75,7 +78,7 @@ def drop_prefixes(behs):
 
 
 def gen(c, name, maxc, maxp, rxcap, txcap, d, mode, cover, simulate=None, workers=4):
-    view = {"state": "VIEW GViewState\n", "trans": "VIEW GViewTrans\n"}.get(cover, "")
+    view = {"state": "VIEW GViewState\n", "trans": "VIEW GViewTrans\n", "mic": "VIEW GViewMic\n"}.get(cover, "")
     cfg = vlib.write_cfg(c, "gen_%s.cfg" % name,
                          consts(maxc, maxp, rxcap, txcap, True, 'D = %d  Mode = "%s"  Cover = "%s"' % (d, mode, cover)) +
                          "SPECIFICATION GSpec\nINVARIANTS Emit\n" + view + "CHECK_DEADLOCK FALSE\n")
@@ -85,7 +88,7 @@ def gen(c, name, maxc, maxp, rxcap, txcap, d, mode, cover, simulate=None, worker
     else:
         behs = vlib.generate(c, "LLData", "LLDataGen.tla", cfg, workers=workers)
     n = len(behs)
-    if cover in ("state", "trans"):
+    if cover in ("state", "trans", "mic"):
         behs = drop_prefixes(behs)
     c.note("generated %s: %d behaviours (%d printed), %d ops" % (name, len(behs), n, sum(len(b) for b in behs)))
     return behs
@@ -129,37 +132,49 @@ def script_of(beh, i, var):
 
 
 def diag_lines(out):
+    """<<"DIAG", line, <<failing aspects>>, <<stimulus class>>>> printed by LLDataTrace (TLC wraps long values)"""
     res = {}
-    for line in out.splitlines():
-        line = line.strip()
-        if line.startswith('<<"DIAG"'):
-            t = vlib.parse_tla_value(line)
-            if t:
-                res[int(t[1])] = [str(x) for x in t[2]]
+    lines = out.splitlines()
+    k = 0
+    while k < len(lines):
+        line = lines[k].strip()
+        k += 1
+        if not line.startswith('<<"DIAG"'):
+            continue
+        while line.count("<<") > line.count(">>") and k < len(lines):
+            line += " " + lines[k].strip()
+            k += 1
+        t = vlib.parse_tla_value(line)
+        if t:
+            names, cls = t[2]
+            res[int(t[1])] = ["+".join(str(x) for x in names) or "other"] + [str(x) for x in cls]
     return res
 
 
 def signature(ev, diag, reset):
     what = diag[0] if diag else "?"
     parts = [ev.get("e", "?"), what]
-    if what == "nobuf-while-empty":
+    if what.startswith("nobuf-while-empty"):
         parts.append("rx<2*maxrx" if reset.get("rx", 0) < 2 * reset.get("maxrx", 0) else "rx>=2*maxrx")
-    if what == "refused-while-empty":
+    if what.startswith("refused-while-empty"):
         parts.append("tx<2*alloc" if reset.get("tx", 0) < 2 * ev.get("asz", 0) else "tx>=2*alloc")
     return ":".join(parts + list(diag[1:]))
 
 
 def validate_many(cfg, traces):
     with ThreadPoolExecutor(max(1, min(JOBS, len(traces)))) as ex:
-        res = list(ex.map(lambda p: vlib.validate_trace("LLData", "LLDataTrace.tla", cfg, p), traces))
+        res = list(ex.map(lambda p: vlib.validate_trace("LLData", "LLDataTrace.tla", cfg, p, timeout=1800), traces))
     return dict(zip(traces, res))
 
 
 class Runner:
+    """runs behaviours on the builds, pools the recorded executions and validates them with few TLC runs"""
+
     def __init__(self, c):
         self.c = c
         self.counts = {}
-        self.mic_ok = 0
+        self.pool = {True: [], False: []}      # room rule on/off -> executions
+        self.nfiles = 0
 
     def count(self, ev):
         e = ev.get("e")
@@ -174,57 +189,97 @@ class Runner:
             k = "read:" + ("pdu" if ev["id"] else "none")
         self.counts[k] = self.counts.get(k, 0) + 1
 
-    def replay_set(self, exe, tx, rx, var, behs, room, tag, offset=0):
-        """run the behaviours on one build, validate, report. -> number of mismatching executions"""
+    def record(self, exe, tx, rx, var, behs, room, tag, offset=0):
+        """replay behaviours on one build; the recorded executions go to the pool"""
         c = self.c
-        if not behs:
-            return 0
-        nchunks = max(1, min(JOBS, sum(len(b) + 5 for b in behs) // 6000))
-        traces, scripts = [], {}
-        i = offset
-        for n, part in enumerate(vlib.chunks(behs, nchunks)):
-            sp = os.path.join(c.build_dir, "s_%s_%d.txt" % (tag, n))
-            tp = os.path.join(c.build_dir, "t_%s_%d.ndjson" % (tag, n))
-            ss = []
-            for b in part:
-                ss.append(script_of(b, i, var))
-                i += 1
-            vlib.write_lines(sp, [l for s in ss for l in s])
+        scripts = [script_of(b, offset + n, var) for n, b in enumerate(behs)]
+        done = 0
+        while done < len(scripts):
+            self.nfiles += 1
+            sp = os.path.join(c.build_dir, "s_%s_%d.txt" % (tag, self.nfiles))
+            tp = os.path.join(c.build_dir, "t_%s_%d.ndjson" % (tag, self.nfiles))
+            vlib.write_lines(sp, [l for s in scripts[done:] for l in s])
             rc, out = vlib.run_harness(exe, [sp, tp])
             if rc != 0:
                 raise vlib.ToolFailure("harness failed rc=%d: %s" % (rc, out[-2000:]))
-            traces.append(tp)
-            scripts[tp] = ss
-        verdicts = validate_many(trace_cfg(c, room), traces)
-        bad = 0
-        for tp in traces:
-            v = verdicts[tp]
-            execs = vlib.split_executions(tp)
-            if len(execs) != len(scripts[tp]):
-                raise vlib.ToolFailure("%s: %d executions for %d scripts (crash?)" % (tp, len(execs), len(scripts[tp])))
-            c.add_traces(len(execs), v.events)
-            diags = diag_lines(v.out)
-            firsts = [e[0] for e in execs]
-            mism = {}
-            for ln in v.mismatch_lines:
-                idx = max(k for k, f in enumerate(firsts) if f <= ln)
-                mism[idx] = ln
-            for idx, (first, evs) in enumerate(execs):
-                stop = mism.get(idx)
-                for k, ev in enumerate(evs):
-                    if stop is not None and first + k >= stop:
-                        break
-                    self.count(ev)
-                if stop is not None:
-                    bad += 1
-                    ev = evs[stop - first]
-                    sig = signature(ev, diags.get(stop, []), evs[0])
-                    c.finding(sig, "ll_data_pdu_buffer<%d,%d> %s: event %s is not a step of LLData (%s)"
-                              % (tx, rx, json.dumps(evs[0], separators=(",", ":")), json.dumps(ev, separators=(",", ":")),
-                                 " ".join(diags.get(stop, []))),
-                              {"tx": tx, "rx": rx, "room": room, "script": scripts[tp][idx], "failing_event": stop - first,
-                               "events": evs[:stop - first + 1]})
-        return bad
+            execs = []
+            with open(tp) as f:
+                for line in f:
+                    line = line.strip()
+                    if not line:
+                        continue
+                    if line.startswith('{"e":"Reset"'):
+                        execs.append([])
+                    execs[-1].append(line)
+            os.remove(tp)
+            os.remove(sp)
+            crashed = bool(execs) and execs[-1][-1].startswith('{"e":"Crash"')
+            good = execs[:-1] if crashed else execs
+            for k, lines in enumerate(good):
+                self.pool[room].append({"tx": tx, "rx": rx, "var": var, "script": scripts[done + k], "lines": lines, "tag": tag})
+            done += len(good)
+            if crashed:
+                evs = [json.loads(l) for l in execs[-1]]
+                last = evs[-2] if len(evs) > 1 else {}
+                c.finding("crash:%s:after:%s" % (evs[-1].get("what"), last.get("e")),
+                          "ll_data_pdu_buffer<%d,%d>: crash / sanitizer report after %s" % (tx, rx, json.dumps(last)),
+                          {"tx": tx, "rx": rx, "room": room, "script": scripts[done], "events": evs})
+                done += 1
+            elif len(good) != len(scripts) - (done - len(good)):
+                raise vlib.ToolFailure("%s: %d executions recorded for %d scripts" % (tag, len(good), len(scripts)))
+
+    def validate(self):
+        """validate everything in the pool; -> {tag: rejected executions}"""
+        c = self.c
+        rejected = {}
+        for room in (True, False):
+            entries = self.pool[room]
+            if not entries:
+                continue
+            total = sum(len(e["lines"]) for e in entries)
+            nfiles = max(1, total // 15000)                     # ~15k events per TLC run, JOBS at a time
+            files = [[] for _ in range(nfiles)]
+            sizes = [0] * nfiles
+            for e in entries:                                   # greedy balance
+                k = sizes.index(min(sizes))
+                files[k].append(e)
+                sizes[k] += len(e["lines"])
+            paths = []
+            for k, es in enumerate(files):
+                tp = os.path.join(c.build_dir, "v_%s_%d.ndjson" % ("room" if room else "noroom", k))
+                vlib.write_lines(tp, [l for e in es for l in e["lines"]])
+                paths.append(tp)
+            verdicts = validate_many(trace_cfg(c, room), paths)
+            for tp, es in zip(paths, files):
+                v = verdicts[tp]
+                c.add_traces(len(es), v.events)
+                diags = diag_lines(v.out)
+                firsts, n = [], 1
+                for e in es:
+                    firsts.append(n)
+                    n += len(e["lines"])
+                mism = {}
+                for ln in v.mismatch_lines:
+                    idx = max(k for k, f in enumerate(firsts) if f <= ln)
+                    mism.setdefault(idx, ln)
+                for idx, e in enumerate(es):
+                    stop = mism.get(idx)
+                    first = firsts[idx]
+                    upto = len(e["lines"]) if stop is None else stop - first
+                    for l in e["lines"][:upto]:
+                        self.count(json.loads(l))
+                    if stop is not None:
+                        rejected[e["tag"]] = rejected.get(e["tag"], 0) + 1
+                        evs = [json.loads(l) for l in e["lines"][:upto + 1]]
+                        ev = evs[-1]
+                        d = diags.get(stop, [])
+                        c.finding(signature(ev, d, evs[0]),
+                                  "ll_data_pdu_buffer<%d,%d> %s: event %s is not a step of LLData (%s)"
+                                  % (e["tx"], e["rx"], e["lines"][0], e["lines"][upto], " ".join(d)),
+                                  {"tx": e["tx"], "rx": e["rx"], "room": room, "script": e["script"],
+                                   "failing_event": upto, "events": evs})
+        self.pool = {True: [], False: []}
+        return rejected
 
 
 def build_all(c, sizes):
@@ -249,46 +304,66 @@ def run(c):
         "harness and its headers are validated against the model (CentralSends / CentralRx)",
         "upper layer commits non-empty PDUs of at most max_tx_size; calls are sequential (no preemption inside a call)",
         "fault alphabet of this property: %s" % {"plain": "lost, CRC error, no buffer in both directions (no MIC failures)",
-                                                 "enc": "plain + MIC failure exactly on retransmissions of accepted data PDUs",
+                                                 "enc": "plain + encrypted link: the harness lets the MIC of a data PDU fail iff the buffer's "
+                                                        "receive packet counter differs from the PDU's packet counter (CCM), i.e. on "
+                                                        "retransmissions of PDUs that were already accepted and counted",
                                                  "any": "plain + MIC failure on any non-empty PDU"}[mode],
         "C15 only: an empty receive/transmit buffer must accept a PDU (RoomRule); C16/C17 traces are validated without it",
     ]
     if c.replay:
         return replay(c)
 
-    # 1. design level: complete state graph of the bounded instance
-    vlib.model_check(c, "LLData", "LLData.tla", "MC.cfg", workers=4)
-    if not c.quick:
-        vlib.model_check(c, "LLData", "LLData.tla", "MC4.cfg", workers=4)
-
     sizes = [(61, 61), (31, 31), (100, 100), (61, 31)] if c.quick else \
             [(t, r) for t in (31, 61, 100) for r in (31, 61, 100)]
-    exes = build_all(c, sizes)
-
-    # 2. behaviours
-    plan = []   # (tag, tx, rx, behaviours)
-    d_all = 6 if c.quick else 7
-    with ThreadPoolExecutor(3) as ex:
-        f_all = ex.submit(gen, c, "all", 3, 3, 2, 2, d_all, mode, "all")
-        f_st = ex.submit(gen, c, "state11", 3, 3, 1, 1, 60, mode, "state")
-        f_tr = ex.submit(gen, c, "cover33", 3, 3, 3, 3, 60, mode, "state" if c.quick else "trans")
-        b_all, b_st, b_tr = f_all.result(), f_st.result(), f_tr.result()
-    plan += [("all", 61, 61, b_all), ("st11", 31, 31, b_st), ("cov33", 100, 100, b_tr)]
+    d_all = 5 if c.quick else 7
     nsim, dsim = (240, 80) if c.quick else (3000, 120)
-    b_sim = gen(c, "sim", 60, 60, 2, 3, dsim, mode, "sim", simulate=nsim)
-    if c.quick:
-        plan += [("sim_a", 61, 31, b_sim[:nsim // 2]), ("sim_b", 100, 100, b_sim[nsim // 2:])]
-    else:
-        with ThreadPoolExecutor(3) as ex:
-            fs = {(t, r): ex.submit(gen, c, "trans%d%d" % (capof(t), capof(r)), 3, 3, capof(r), capof(t), 60, mode, "trans")
-                  for t, r in sizes if (t, r) not in ((100, 100),)}
-            for (t, r), f in fs.items():
-                plan.append(("tr_%d_%d" % (t, r), t, r, f.result()))
-        per = max(1, len(b_sim) // len(sizes))
-        for n, (t, r) in enumerate(sizes):
-            plan.append(("sim_%d_%d" % (t, r), t, r, b_sim[n * per:(n + 1) * per]))
-        plan.append(("all31", 31, 31, b_all[::7]))
-        plan.append(("all100", 100, 61, b_all[3::7]))
+    trans_sizes = [] if c.quick else [(31, 31), (61, 61), (31, 100), (100, 61), (61, 31)]
+    # model checking, behaviour generation and the harness builds are independent: run them side by side
+    with ThreadPoolExecutor(4) as ex:
+        # 1. design level: complete state graph of the bounded instance
+        f_mc = [ex.submit(vlib.model_check, c, "LLData", "LLData.tla", cfg, workers=4)
+                for cfg in (["MC.cfg"] if c.quick else ["MC.cfg", "MC4.cfg"])]
+        # implementation-shaped model (decision structure of the real member functions) under this property's
+        # fault alphabet; for C17 also with the repaired acknowledge(pdu)
+        f_impl = ex.submit(vlib.model_check, c, "LLData", "LLDataImpl.tla",
+                           {"C15": "MCImplC15.cfg", "C16": "MCImplC16.cfg", "C17": "MCImplC17Fixed.cfg"}[c.prop], workers=4)
+        f_asis = ex.submit(vlib.model_check, c, "LLData", "LLDataImpl.tla", "MCImplC17AsIs.cfg", workers=4,
+                           must_hold=False) if c.prop == "C17" else None
+        f_build = ex.submit(build_all, c, sizes)
+        # 2. behaviours
+        f_all = ex.submit(gen, c, "all", 3, 3, 2, 2, d_all, mode, "all")
+        scover = "state" if mode == "plain" else "mic"       # one behaviour per model state (+ per state entered by a MIC failure)
+        f_st = ex.submit(gen, c, "state11", 3, 3, 1, 1, 60, mode, scover)
+        f_tr = ex.submit(gen, c, "cover33", 3, 3, 3, 3, 60, mode, scover if c.quick else "trans")
+        # C17: half of the random behaviours with MIC failures on retransmissions only (they survive the known finding)
+        f_sim = ex.submit(gen, c, "sim", 60, 60, 2, 3, dsim, mode, "sim", simulate=nsim if mode != "any" else nsim // 2)
+        f_sim2 = ex.submit(gen, c, "sim_enc", 60, 60, 2, 3, dsim, "enc", "sim", simulate=nsim // 2) if mode == "any" else None
+        f_trans = {(t, r): ex.submit(gen, c, "trans%d%d" % (capof(t), capof(r)), 3, 3, capof(r), capof(t), 60, mode, "trans")
+                   for t, r in trans_sizes}
+        for f in f_mc + [f_impl]:
+            f.result()
+        if f_asis:
+            r = f_asis.result()
+            c.extra["impl_model_as_is"] = {"violated": r.violated, "counterexample": r.counterexample()[:3000]}
+            c.note("LLDataImpl with the code's acknowledge(pdu) as it is (MicTogglesNesn): %s"
+                   % ("invariant %s violated - design-level counterpart of the known finding" % r.violated if r.violated
+                      else "no invariant violated"))
+        exes = f_build.result()
+        b_all, b_st, b_tr, b_sim = f_all.result(), f_st.result(), f_tr.result(), f_sim.result()
+        if f_sim2:
+            b_sim = [b for pair in zip(b_sim, f_sim2.result()) for b in pair]
+        plan = [("all", 61, 61, b_all), ("st11", 31, 31, b_st), ("cov33", 100, 100, b_tr)]   # (tag, tx, rx, behaviours)
+        if c.quick:
+            plan += [("sim", 61, 31, b_sim[:len(b_sim) // 2]), ("sim", 100, 100, b_sim[len(b_sim) // 2:])]
+        else:
+            for (t, r), f in f_trans.items():
+                plan.append(("trans", t, r, f.result()))
+            per = max(1, len(b_sim) // len(sizes))
+            for n, (t, r) in enumerate(sizes):
+                plan.append(("sim", t, r, b_sim[n * per:(n + 1) * per]))
+            plan.append(("all", 31, 31, b_all[::7]))
+            plan.append(("all", 100, 61, b_all[3::7]))
+            plan.append(("all", 61, 100, b_all[5::7]))
     c.sample({"mode": mode, "behaviour": b_all[len(b_all) // 2]})
     c.sample({"mode": mode, "behaviour": b_tr[-1]})
     c.sample({"mode": mode, "behaviour": b_sim[0][:40]})
@@ -296,6 +371,7 @@ def run(c):
     # 3./4. replay + trace validation
     rn = Runner(c)
     off = 0
+    summary = []
     for tag, tx, rx, allbehs in plan:
         vs = variants(tx, rx)
         for vi, var in enumerate(vs):
@@ -304,16 +380,18 @@ def run(c):
                 continue
             t = tight(tx, rx, var)
             room = c.prop == "C15" and not t
-            vtag = "%s_v%d" % (tag, vi)
-            bad = rn.replay_set(exes[(tx, rx)], tx, rx, var, behs, room, vtag, off)
-            c.note("%s on <%d,%d> max_rx/tx %s: %d behaviours, %d rejected (room rule %s)"
-                   % (tag, tx, rx, var, len(behs), bad, "on" if room else "off"))
+            vtag = "%s<%d,%d>max%s" % (tag, tx, rx, list(var))
+            rn.record(exes[(tx, rx)], tx, rx, var, behs, room, vtag, off)
+            summary.append((vtag, len(behs), room))
             if c.prop == "C15" and t:
                 # the progress half of C15 on the tight configurations: a sample, validated with the room rule
-                sub = behs[:: max(1, len(behs) // 300)]
-                bad = rn.replay_set(exes[(tx, rx)], tx, rx, var, sub, True, vtag + "_room", off)
-                c.note("%s on <%d,%d> max_rx/tx %s with room rule: %d behaviours, %d rejected" % (tag, tx, rx, var, len(sub), bad))
+                sub = behs[:: max(1, len(behs) // 150)]
+                rn.record(exes[(tx, rx)], tx, rx, var, sub, True, vtag + "+room", off)
+                summary.append((vtag + "+room", len(sub), True))
             off += len(behs)
+    rejected = rn.validate()
+    for vtag, n, room in summary:
+        c.note("%s: %d behaviours, %d rejected (room rule %s)" % (vtag, n, rejected.get(vtag, 0), "on" if room else "off"))
     c.exhaustive = True
     c.extra["events_by_action"] = dict(sorted(rn.counts.items()))
     c.extra["fault_alphabet"] = mode
